@@ -20,6 +20,14 @@ PROGRAMS = {
     'convert-exit': 'try:\n    while True:\n        pass\nexcept BaseException:\n    raise ValueError("converted")\n',
     'finish-late': 'try:\n    while True:\n        pass\nexcept BaseException:\n    pass\nprint("late")\n',
 }
+# submissions of two files: the main file imports a second student file that never finishes
+HELPERS = {
+    'import-busy-helper': ('import helper\nprint("after")\n', 'x = 0\nwhile True:\n    x += 1\n'),
+    'import-printing-helper': ('import helper\nprint("after")\n', 'n = 0\nwhile True:\n    n += 1\n    if n % 100000 == 0:\n        print("tick")\n'),
+    'from-import-helper-function': ('from helper import spin\nspin()\n', 'def spin():\n    while True:\n        pass\n'),
+}
+for _k, (_m, _h) in HELPERS.items():
+    PROGRAMS[_k] = _m
 SCHED = {'A': 0, 'B': 1, 'C': 2, 'N': 3}
 
 
@@ -73,7 +81,16 @@ def oracle(case, r):
 def correspondence(ctx):
     progs = list(PROGRAMS) if ctx.tier != 'quick' else ['busy', 'printing', 'swallow-exception', 'swallow-exception-printing', 'swallow-base', 'convert-exit', 'finish-late']
     scheds = ['N', 'A', 'B', 'C']
-    cases = [{'name': p, 'program': PROGRAMS[p], 'schedule': s, 'allowed': 0.3} for p in progs for s in scheds]
+    if ctx.tier == 'quick':
+        progs = progs + ['import-busy-helper', 'import-printing-helper']
+    cases = [{'name': p, 'program': PROGRAMS[p], 'schedule': s, 'allowed': 0.3} for p in progs for s in scheds
+             if not (p in HELPERS and s in ('B', 'C') and ctx.tier == 'quick')]
+    # the same after the sandbox has been used and its history cleared
+    cases += [{'name': p, 'program': PROGRAMS[p], 'schedule': s, 'allowed': 0.3, 'warmup': True}
+              for p in (progs if ctx.tier != 'quick' else ['busy', 'printing']) for s in ('N', 'A') if p not in HELPERS]
+    for c in cases:
+        if c['name'] in HELPERS:
+            c['files'] = {'answer.py': HELPERS[c['name']][0], 'helper.py': HELPERS[c['name']][1]}
     # the same, issued while the grading script is itself handling an exception (try: int('x') / except ValueError: run(...))
     cases += [{'name': p, 'program': PROGRAMS[p], 'schedule': s, 'allowed': 0.3, 'in_except': True}
               for p in (progs if ctx.tier != 'quick' else ['busy', 'printing', 'finish-late']) for s in ('N', 'A', 'B')]
@@ -85,7 +102,7 @@ def correspondence(ctx):
             ctx.violation('hang:%s' % case['schedule'], {'case': case, 'why': 'run(threaded=True) had not returned 25 s after a %.1f s limit'
                                                         % case['allowed']})
             break
-        ctx.case((case['name'], case['schedule'], bool(case.get('in_except'))), nontrivial=True,
+        ctx.case((case['name'], case['schedule'], bool(case.get('in_except')), bool(case.get('warmup'))), nontrivial=True,
                  sample={'program': case['name'], 'schedule': case['schedule'],
                          'observed': {k: r[k] for k in ('wall', 'exception_at_return', 'labels_at_end', 'next_output', 'hook_log')}}
                  if case['name'] == 'busy' else None)
